@@ -92,6 +92,18 @@ def run(ctx):
         else:
             r.violation("lexpr_macros::parser::Parser::parse_identifier", "subsequent:%s" % chr(c),
                         "sexp! joins %r into a punctuation symbol but the text parser's symbol scanner stops at it" % chr(c), pid.loc())
+    # a sign followed by a punctuation character the macro joins must be a symbol for the text parser too
+    eof_table = None
+    for sign in (0x2D, 0x2B):
+        for c in sorted(subs):
+            kinds, _ = c08._token_kinds(lexpr, pt, [sign, c, 0x20], {"keyword_syntaxes": 4, "racket_hash_percent_symbols": 0,
+                                                                     "leading_digit_symbols": 0})
+            if kinds == {"Symbol"}:
+                r.ok("`%s%s` is a symbol for the text parser" % (chr(sign), chr(c)), pt)
+            else:
+                r.violation("lexpr::parse::is_sign_subsequent", "sign-subsequent:%s%s" % (chr(sign), chr(c)),
+                            "sexp! joins `%s%s` into one punctuation symbol, but the text parser reads a token starting "
+                            "with `%s%s` as %s" % (chr(sign), chr(c), chr(sign), chr(c), sorted(kinds)), pt.loc())
     # `#` identifiers: string constants compared in parse_octothorpe
     idents = set()
     for b in poc.blocks:
